@@ -112,8 +112,22 @@ func compareIter(it IterAPI, m *ModelIter, after string, checkValue func(pos int
 			return f
 		}
 	}
-	ScribbleBehind(k)
+	if _, ok := it.(*kv.Iterator); ok {
+		ScribbleKey(k) // a key handed out by the database belongs to the caller
+	} else {
+		ScribbleBehind(k) // the index's own iterators hand out the index's memory: only what lies behind is looked at
+	}
 	return nil
+}
+
+// ScribbleKey does what a caller may do to a key slice the database handed it (ListKeys, Iterator.Key, the Fold
+// callback): overwrite it in place - masking a key for display, bumping its last byte to build the next seek target -
+// and append to it. If the slice is the index's own memory the index is corrupted and the following reads fail.
+func ScribbleKey(k []byte) {
+	for i := range k {
+		k[i] ^= 0xFF
+	}
+	ScribbleBehind(k)
 }
 
 // ScribbleBehind does what a caller's append(k, ...) does to a slice it was handed: it writes into the spare
@@ -145,7 +159,12 @@ type IterFeatures struct {
 // applying interleaved writes through apply (which must update model state).
 func RunIterSession(db *kv.DB, model map[string][]byte, spec *IterOp, apply func(op *Op) *Fail, tr func(string, ...any)) (*IterFeatures, *Fail) {
 	m := NewModelIter(model, spec.Prefix, spec.Reverse)
-	it := db.NewIterator(kv.IteratorOptions{Prefix: append([]byte(nil), spec.Prefix...), Reverse: spec.Reverse})
+	// the caller builds its prefixes in one buffer and reuses it as soon as NewIterator has returned
+	prefixBuf := append([]byte(nil), spec.Prefix...)
+	it := db.NewIterator(kv.IteratorOptions{Prefix: prefixBuf, Reverse: spec.Reverse})
+	for i := range prefixBuf {
+		prefixBuf[i] ^= 0xFF
+	}
 	defer it.Close()
 	checkValue := func(pos int) *Fail {
 		val, err := it.Value()
